@@ -64,6 +64,8 @@ var checkBeta = ev.Register("betainc", func(c *BetaCase) ev.Outcome {
 		return ev.Fail("harness error: parameters outside the stated range")
 	}
 	xs := ev.Floats(c.Xs)
+	// every case also probes the floats adjacent to the ends of [0,1], inside and outside
+	xs = append(xs, math.Nextafter(1, 2), 1+0x1p-51, -5e-324, -0x1p-1022, math.Nextafter(1, 0), 5e-324, 0x1p-1022, math.Inf(1), math.Inf(-1))
 	sort.Float64s(xs)
 	if v := mathx.BetaInc(0, a, b); v != 0 {
 		return ev.Fail("BetaInc(0,%v,%v) = %v", a, b, v)
@@ -157,6 +159,7 @@ func gammaIntClosedQ(a int, x float64) float64 {
 var checkGamma = ev.Register("gammainc", func(c *GammaCase) ev.Outcome {
 	a := float64(c.A)
 	xs := ev.Floats(c.Xs)
+	xs = append(xs, -5e-324, -0x1p-1022, 5e-324, 0x1p-1022, math.Inf(-1))
 	sort.Float64s(xs)
 	valid := a >= 0.05 && a <= 300
 	if !valid && !(a <= 0 || math.IsNaN(a)) {
